@@ -62,6 +62,28 @@ def elements(cfg, spec, env):
     return out
 
 
+def chain_case(cfg, fam, xm, am):
+    """[(label, expected, observed)] x is used first (inverse, power, sign), then elements derived from that
+    same object are built and inverted / raised"""
+    F = cfg.F
+    x, al = cfg.lib(xm), cfg.lib(am)
+    fl.run_op(cfg, "inv", x)
+    fl.run_op(cfg, "pow", x, 3)
+    if fam == "opt":
+        fl.run_op(cfg, "sgn0", x)
+    out = []
+    for lbl, d, dm in (("neg", lambda: -x, F.neg(xm)), ("add", lambda: x + al, F.add(xm, am)),
+                       ("sub", lambda: x - al, F.sub(xm, am)), ("radd", lambda: al + x, F.add(am, xm)),
+                       ("mul", lambda: x * al, F.mul(xm, am)), ("mul-int", lambda: x * 2, F.smul(xm, 2))):
+        try:
+            dv = d()
+            got = [fl.canon(cfg, dv), fl.run_op(cfg, "inv", dv), fl.run_op(cfg, "pow", dv, 3)]
+        except Exception as e:  # noqa: BLE001
+            got = ["raise " + type(e).__name__]
+        out.append((lbl, [("ok", dm), fl.model_op(cfg, "inv", dm), fl.model_op(cfg, "pow", dm, 3)], got))
+    return out
+
+
 def task_field(a, env):
     """One (family, configuration): complete / structured operator tables vs the model."""
     fam = a["fam"]
@@ -124,6 +146,15 @@ def task_field(a, env):
         if not ok:
             bad("x*inv(x)==1", {"x": fl.el_json(cfg, xm)}, True, False)
     r.dn += len(A)
+    # chains on one object: x is inverted / raised / asked for its sign first, then elements derived from
+    # that same object (-x, x + a, x - a, a + x, x * a) are inverted and compared: nothing remembered on
+    # an instance may travel to the elements derived from it
+    for xm in A[:40]:
+        for am in B[:2]:
+            for lbl, exp, got in chain_case(cfg, fam, xm, am):
+                r.ev += 1
+                if got != exp:
+                    bad("derived-from-used-object:" + lbl, {"x": fl.el_json(cfg, xm), "y": fl.el_json(cfg, am)}, exp, got)
     # int operands
     ks = fl.INT_OPERANDS_TINY(p)
     int_ops = (["add", "sub", "mul", "div", "radd", "rsub", "rmul", "rdiv"] if cfg.mc is None
@@ -409,6 +440,11 @@ COMPOSITE = ("x*inv(x)==1", "(x/y)*y==x", "axioms", "construct", "eq-int")
 
 
 def replay_case(cfg, op, args):
+    if op.startswith("derived-from-used-object:"):
+        for lbl, exp, got in chain_case(cfg, cfg.family, fl.el_from(cfg, args["x"]), fl.el_from(cfg, args["y"])):
+            if lbl == op.split(":", 1)[1] and exp != got:
+                return {"expected": exp, "observed": got}
+        return None
     if op in COMPOSITE:
         return None if composite(cfg, op, args) else {"observed": "%s fails" % op}
     xm = None if args.get("x") is None else fl.el_from(cfg, args["x"])
